@@ -1001,9 +1001,17 @@ pub fn meta(a: &Args, rep: &mut Report) {
                     }
                     let mut ts = mk_set(base_r);
                     ts.remove(&target);
+                    // a strict subset is not equal, whichever side it stands on
+                    if ts == t1 || t1 == ts || ts == t2 || t2 == ts {
+                        return Err("a set and its strict subset (one element fewer) compare equal".into());
+                    }
                     ts.insert(universe + 9);
                     if ts == t1 || t1 == ts {
                         return Err("sets differing in one element compare equal".into());
+                    }
+                    let empty: HashSet<u64, Bh> = HashSet::with_hasher(base_r.bh);
+                    if empty == t1 || t1 == empty {
+                        return Err("the empty set compares equal to a non-empty one".into());
                     }
                 }
             }
